@@ -43,12 +43,17 @@ package ptracer
 //@   assigns all(buff)
 //@   ensures result.1 == nil ==> 0 <= result.0 && result.0 <= len(buff)
 
-//@ func ptracer.vmReadStr props C15
+// C02: chunk k of the string is read from the tracee address that corresponds to its place in the buffer
+// (remote progress == local progress), so the assembled string is the tracee's string
+//@ func ptracer.vmReadStr props C02 C15
 //@   arith int
 //@   overflow wrap
 //@   assigns all(buff)
+//@   callsite vmRead: assert @C02 pid == old(pid) && sarr(buff) == sarr(old(buff)) && soff(buff) == soff(old(buff)) + totalRead
+//@   callsite vmRead: assert @C02 addr == (old(addr) + uintptr(totalRead)) % 18446744073709551616
 //@   loop 0: invariant nextRead >= 1
 //@   loop 0: invariant totalRead >= 0
+//@   loop 0: invariant totalRead == soff(buff) - soff(old(buff))
 //@   loop 0: invariant totalRead + len(buff) <= old(len(buff))
 //@   loop 0: invariant sarr(buff) == sarr(old(buff)) && soff(buff) >= soff(old(buff)) && soff(buff) + len(buff) <= soff(old(buff)) + old(len(buff))
 //@   loop 0: decreases len(buff)
@@ -157,6 +162,8 @@ package ptracer
 //@   ensures @C09 ws_stopped(uint32(wstatus)) && ws_stopsig(uint32(wstatus)) == 25 && int(status) != 8 ==> int(status) == 4
 //@   ensures @C15 int(status) == 8 ==> len(errStr) > 0 && ((pid == old(ph.pgid) && ws_exited(uint32(wstatus)) && !old(ph.execved)) || (ws_stopped(uint32(wstatus)) && !old(has(ph.traced, pid) && ph.traced[pid])))
 //@   ensures @C03 int(status) != 1 && !ws_signaled(uint32(wstatus)) ==> T.cont_count == old(T.cont_count)
+//@   ensures @C15 ws_stopped(uint32(wstatus)) && int(status) == 1 ==> !finished && T.cont_count == old(T.cont_count) + 1
+//@   ensures @C09 ws_stopped(uint32(wstatus)) && ws_stopsig(uint32(wstatus)) != 24 && ws_stopsig(uint32(wstatus)) != 25 && ws_stopsig(uint32(wstatus)) != 5 ==> int(status) == 1 || int(status) == 8
 //@   callsite golang.org/x/sys/unix.PtraceCont: assert @C03 ws_stopped(uint32(wstatus)) ==> has(ph.traced, pid) && ph.traced[pid] && T.options[pid] == 1048734
 
 //@ func ptracer.killAll props C12 C16
